@@ -287,7 +287,10 @@ def render_key(k):
         return str(k)
     if k == '':
         return "''"
-    return str(k)
+    k = str(k)
+    if not all(ch.isalnum() or ch in '_.-' for ch in k) or k[0] in '-.':
+        return "'" + k.replace("'", "''") + "'"
+    return k
 
 
 def strip_tags(n, keep=lambda t: False):
